@@ -236,7 +236,108 @@ func runStoredCase(c storedCase) *Violation {
 	if d := spec.Diff(want, got, spec.DiffOpts{SkipIndex: true, SkipDV: true, SkipThes: true}); d != "" {
 		return violation(prop, "stored/mismatch", "%s", d)
 	}
-	return checkStoredSurface(prop, seg, want, c.IDLists)
+	// besides the generated lists: only ids that are present, each once, ascending and descending
+	// (an id carried by two documents then precedes other present ids)
+	var present []spec.B
+	seenID := map[string]bool{}
+	for n := range want.Stored {
+		id := spec.B(want.Stored[n][0].Val)
+		if !seenID[string(id)] {
+			seenID[string(id)] = true
+			present = append(present, id)
+		}
+	}
+	sort.Slice(present, func(i, j int) bool { return present[i] < present[j] })
+	presentRev := make([]spec.B, len(present))
+	for i := range present {
+		presentRev[len(present)-1-i] = present[i]
+	}
+	if len(present) > 2000 {
+		present, presentRev = present[:2000], presentRev[:2000]
+	}
+	lists := append(append([][]spec.B{}, c.IDLists...), present, presentRev)
+	if v := checkStoredSurface(prop, seg, want, lists); v != nil {
+		return v
+	}
+	if c.Mmap && c.Batch.Wide == nil && want.Count > 0 {
+		return storedTwinCheck(prop, c)
+	}
+	return nil
+}
+
+// storedTwin is the batch with the last byte of every non-empty stored value flipped: same
+// shape, same record lengths, other content.
+func storedTwin(b *spec.BatchSpec) *spec.BatchSpec {
+	nb := &spec.BatchSpec{}
+	for _, d := range b.Docs {
+		nd := d
+		nd.Fields = nil
+		for _, f := range d.Fields {
+			nf := f
+			if f.Stored && len(f.Value) > 0 {
+				nf.Value = append([]byte(nil), f.Value...)
+				nf.Value[len(nf.Value)-1] ^= 0x01
+			}
+			nd.Fields = append(nd.Fields, nf)
+		}
+		nb.Docs = append(nb.Docs, nd)
+	}
+	return nb
+}
+
+// storedTwinCheck: a reader that closes one file and opens the next one of the same shape (which
+// the kernel is free to map where the old one was) must see the new file's stored values, also
+// when the last thing it did with the old file was to visit the very same document.
+func storedTwinCheck(prop string, c storedCase) *Violation {
+	twin := storedTwin(c.Batch)
+	wantTwin := spec.Expect(twin)
+	a, closeA, v := openVariant(prop, c.Batch, c.ChunkMode, true)
+	if v != nil {
+		return v
+	}
+	closedA := false
+	defer func() {
+		if !closedA {
+			closeA()
+		}
+	}()
+	// the twin's file is written before the first one is closed, so that nothing else is mapped in between
+	var pathB string
+	err := drive.Safe(func() error {
+		sb, _, e := drive.Build(twin, c.ChunkMode)
+		if e != nil {
+			return e
+		}
+		defer sb.Close()
+		pathB, e = drive.Persist(sb, "c02twin")
+		return e
+	})
+	defer removeFile(pathB)
+	if err != nil {
+		return violation(prop, "twin/build-error", "%v", err)
+	}
+	var got *spec.Obs
+	err = drive.Safe(func() error {
+		if e := a.VisitStoredFields(0, func(string, byte, []byte, []uint64) bool { return true }); e != nil {
+			return e
+		}
+		closeA()
+		closedA = true
+		b, e := drive.Open(pathB)
+		if e != nil {
+			return e
+		}
+		defer b.Close()
+		got, e = drive.Observe(b)
+		return e
+	})
+	if err != nil {
+		return violation(prop, "twin/error", "%v", err)
+	}
+	if d := spec.Diff(wantTwin, got, spec.DiffOpts{SkipIndex: true, SkipDV: true, SkipThes: true}); d != "" {
+		return violation(prop, "twin/stored-mismatch", "a file of the same shape opened after the first one was closed: %s", d)
+	}
+	return nil
 }
 
 var c02 = Check[storedCase]{
